@@ -40,6 +40,38 @@ VERUS = [dict(
         dict(file=FI, path=[II, "fn data_type"], wrap=II, ret="r",
              edits=[dict(rule="R5", regex=r"debug_assert!\((?:[^()]|\([^()]*\))*\);", replace="", count=1)],
              contract="    ensures r == self.lower.spec_data_type(),"),
+        dict(file=FI, path=[II, "fn gt"], wrap=II, ret="r",
+             edits=_GEN + [dict(rule="R9", regex=r"assert_eq_or_internal_err!\(\s*lhs_type,\s*rhs_type,(?:[^()]|\([^()]*\))*\);", replace="if lhs_type != rhs_type { return make_err(); }", count=1),
+                           dict(rule="R13", regex=r"self\.upper <= rhs\.lower", replace="sv_le(self.upper, rhs.lower)", count="any"),
+                           dict(rule="R13", regex=r"\(self\.lower > rhs\.upper\)", replace="sv_lt(rhs.upper, self.lower)", count="any"),
+                           dict(rule="R13", regex=r"self\.lower >= rhs\.upper", replace="sv_le(rhs.upper, self.lower)", count="any"),
+                           dict(rule="R13", regex=r"\(self\.upper < rhs\.lower\)", replace="sv_lt(self.upper, rhs.lower)", count="any")],
+             contract="""    requires num_iv(*self), num_iv(*other),
+    ensures r is Ok, bool_iv(r->Ok_0),
+        // soundness: whatever values the two intervals stand for, the truth value of `a > b` is in the result
+        forall|a: int, b: int| #[trigger] pair_in(*self, *other, a, b) ==> has(iv_mask(r->Ok_0), tvb(a > b)),""",
+             proofs=[dict(at="body_start", text="""
+        proof { lemma_named_sets(); }""")]),
+        dict(file=FI, path=[II, "fn gt_eq"], wrap=II, ret="r",
+             edits=_GEN + [dict(rule="R9", regex=r"assert_eq_or_internal_err!\(\s*lhs_type,\s*rhs_type,(?:[^()]|\([^()]*\))*\);", replace="if lhs_type != rhs_type { return make_err(); }", count=1),
+                           dict(rule="R13", regex=r"self\.upper <= rhs\.lower", replace="sv_le(self.upper, rhs.lower)", count="any"),
+                           dict(rule="R13", regex=r"\(self\.lower > rhs\.upper\)", replace="sv_lt(rhs.upper, self.lower)", count="any"),
+                           dict(rule="R13", regex=r"self\.lower >= rhs\.upper", replace="sv_le(rhs.upper, self.lower)", count="any"),
+                           dict(rule="R13", regex=r"\(self\.upper < rhs\.lower\)", replace="sv_lt(self.upper, rhs.lower)", count="any")],
+             contract="""    requires num_iv(*self), num_iv(*other),
+    ensures r is Ok, bool_iv(r->Ok_0),
+        // soundness: whatever values the two intervals stand for, the truth value of `a >= b` is in the result
+        forall|a: int, b: int| #[trigger] pair_in(*self, *other, a, b) ==> has(iv_mask(r->Ok_0), tvb(a >= b)),""",
+             proofs=[dict(at="body_start", text="""
+        proof { lemma_named_sets(); }""")]),
+        dict(file=FI, path=[II, "fn lt"], wrap=II, ret="r", edits=_GEN,
+             contract="""    requires num_iv(*self), num_iv(*other),
+    ensures r is Ok, bool_iv(r->Ok_0),
+        forall|a: int, b: int| #[trigger] pair_in(*other, *self, b, a) ==> has(iv_mask(r->Ok_0), tvb(a < b)),   // a in self, b in other"""),
+        dict(file=FI, path=[II, "fn lt_eq"], wrap=II, ret="r", edits=_GEN,
+             contract="""    requires num_iv(*self), num_iv(*other),
+    ensures r is Ok, bool_iv(r->Ok_0),
+        forall|a: int, b: int| #[trigger] pair_in(*other, *self, b, a) ==> has(iv_mask(r->Ok_0), tvb(a <= b)),   // a in self, b in other"""),
         dict(file=FI, path=[II, "fn and"], wrap=II, ret="r", edits=_GEN,
              contract="""    requires bool_iv(*self), bool_iv(*other),
     ensures r is Ok, bool_iv(r->Ok_0), exact2(|a: int, b: int| and3(a, b), iv_mask(*self), iv_mask(*other), iv_mask(r->Ok_0)),"""),
@@ -109,13 +141,18 @@ VERUS = [dict(
         dict(name="nullable_or_tests_false", item="or", find="contains_value(ScalarValue::Boolean(Some(true)))", replace="contains_value(ScalarValue::Boolean(Some(false)))"),
         dict(name="nullable_and_shortcut_needs_both", item="and", find="if self == &Self::FALSE || rhs == &Self::FALSE {", replace="if self == &Self::FALSE && rhs == &Self::FALSE {"),
         dict(name="nullable_not_of_unknown_is_true", item="not", find="Ok(Self::UNKNOWN)", replace="Ok(Self::TRUE)"),
+        dict(name="gt_certainly_false_on_strict_less_only", item="gt", find="sv_le(self.upper, rhs.lower)", replace="sv_le(self.upper, self.lower)"),
+        dict(name="gt_true_and_false_swapped", item="gt", find="Ok(Self::TRUE)", replace="Ok(Self::FALSE)"),
+        dict(name="gt_eq_true_on_strict_greater_missing_equal", item="gt_eq", find="Ok(Self::FALSE)", replace="Ok(Self::TRUE)"),
+        dict(name="lt_not_mirrored", item="lt", find="other.gt(self)", replace="self.gt(other)"),
+        dict(name="gt_ignores_unbounded_upper", item="gt", find="if !(self.upper.is_null() || rhs.lower.is_null()) &&", replace="if !(rhs.lower.is_null()) &&"),
         dict(name="is_true_ignores_unknown", item="is_true", find="(true, false, false) => Ok(Self::TRUE),", replace="(true, false, _) => Ok(Self::TRUE),"),
         dict(name="is_unknown_inverted", item="is_unknown", find="(_, _, false) => Ok(Self::FALSE),", replace="(_, _, false) => Ok(Self::TRUE),"),
         dict(name="maybe_null_reported_not_null", item="is_true_false_unknown", find="?,\n                true,\n            ),", replace="?,\n                false,\n            ),"),
     ],
 )]
 TRUSTED = ["Kani 0.68 / CBMC 6.11 (IEEE-754 comparison semantics of CBMC's float theory)",
-           "three_valued_logic: Verus+Z3; two-variant type model of DataType / ScalarValue (Boolean, Other) re-attached derives (R16), Borrow<Self> parameters taken as &Self and reference patterns matched by value on the Copy model (R3), ASSUMED contract of Interval::contains_value for boolean values (prelude_logic.rs)"]
+           "three_valued_logic: Verus+Z3; three-variant type model of DataType / ScalarValue (Boolean, Int64, Other), ScalarValue PartialOrd on non-NULL Int64 values behind assumed contracts sv_le / sv_lt (R13), re-attached derives (R16), Borrow<Self> parameters taken as &Self and reference patterns matched by value on the Copy model (R3), ASSUMED contract of Interval::contains_value for boolean values (prelude_logic.rs)"]
 ASSUMPTIONS = ["only the bit-level successor/predecessor is within reach; interval add/sub/mul/div, cp_solver and everything through ScalarValue/Arrow kernels and the fesetround FFI are not verified"]
 NOT_COVERED = ["numeric Interval::{add,sub,mul,div,intersect,union,gt,lt,...}", "cp_solver propagation", "alter_fp_rounding_mode (FFI fesetround)", "integer increment/decrement through ScalarValue"]
 EXPLANATION = "A successor that skipped a representable value would let a strict bound x > c remove a feasible value during constraint propagation; the harnesses prove, for every bit pattern, that no value is skipped."
